@@ -282,12 +282,21 @@ class MsgGen:
         vals = [None] * len(fs)
         # match fields first decide their key
         forced = {}
-        for i, f0 in enumerate(fs):
-            f = res(P, f0)
+        # the match field whose key the caller fixed goes first; a second match field over the same key field takes
+        # the payload its own table gives for that key
+        order = sorted(range(len(fs)), key=lambda i: 0 if (self.key and fs[i]["name"] == self.key[0]) else 1)
+        for i in order:
+            f = res(P, fs[i])
             if f["k"] == "match":
                 pairs = f["pairs"]
                 if self.key and self.key[0] == f["name"]:
                     _, kb, pk = self.key
+                elif f["key"] in forced:
+                    kb = forced[f["key"]]
+                    hit = [p for p in pairs if list(kb) in [list(k) for k in p["keys"]]]
+                    if not hit:
+                        raise OutOfDomain("key %r of %s is not in the table of %s" % (kb, f["key"], f["name"]))
+                    pk = hit[0]["pkt"]
                 else:
                     p = self.rnd.choice(pairs)
                     j = self.rnd.randrange(len(p["keys"]))
@@ -314,7 +323,15 @@ def messages(P, count, seed, thorough=False):
     r = root(P)
 
     def mk(label, **kw):
-        out.append((label, {"t": "o", "fs": MsgGen(P, random.Random(zlib.crc32(label.encode())), **kw).fields(r["fields"])}))
+        try:
+            out.append((label, {"t": "o", "fs": MsgGen(P, random.Random(zlib.crc32(label.encode())), **kw).fields(r["fields"])}))
+        except OutOfDomain:
+            pass            # no consistent message of this class exists (two tables over one key disagree)
+    def mkrnd(label):
+        try:
+            out.append((label, {"t": "o", "fs": MsgGen(P, rnd).fields(r["fields"])}))
+        except OutOfDomain:
+            pass
     mk("pattern", list_len=1, int_cls="pattern", str_idx=1)
     mk("zero-empty", list_len=0, int_cls="zero", str_idx=0)
     mk("ones-utf8", list_len=3, int_cls="ones", str_idx=2)
@@ -329,9 +346,11 @@ def messages(P, count, seed, thorough=False):
     if thorough:
         mk("list300", list_len=300, int_cls="pattern", str_idx=1)
         for i in range(8):
-            out.append(("rnd%d" % i, {"t": "o", "fs": MsgGen(P, rnd).fields(r["fields"])}))
-    while len(out) < count:
-        out.append(("rnd%d" % len(out), {"t": "o", "fs": MsgGen(P, rnd).fields(r["fields"])}))
+            mkrnd("rnd%d" % i)
+    tries = 0
+    while len(out) < count and tries < 4 * count + 8:
+        tries += 1
+        mkrnd("rnd%d" % len(out))
     seen, res_ = set(), []
     for lab, m in out:
         key = repr(m)
